@@ -4,6 +4,7 @@ package vnet
 import (
 	"io"
 	"net"
+	"os"
 	"sync"
 	"time"
 )
@@ -21,6 +22,19 @@ func newHalf() *half { h := &half{}; h.cond = sync.NewCond(&h.mu); return h }
 type end struct {
 	name    string
 	in, out *half
+	dmu     sync.Mutex
+	// deadlines armed on this end, and the logical time: every deadline at or before passed has passed
+	readDL, writeDL, passed time.Time
+}
+
+func (e *end) expired(write bool) bool {
+	e.dmu.Lock()
+	defer e.dmu.Unlock()
+	d := e.readDL
+	if write {
+		d = e.writeDL
+	}
+	return !d.IsZero() && !d.After(e.passed)
 }
 
 type Conn struct{ e *end }
@@ -36,6 +50,9 @@ func (c *Conn) Read(p []byte) (int, error) {
 	h := c.e.in
 	if len(p) == 0 {
 		return 0, nil
+	}
+	if c.e.expired(false) {
+		return 0, os.ErrDeadlineExceeded
 	}
 	h.mu.Lock()
 	defer h.mu.Unlock()
@@ -55,6 +72,9 @@ func (c *Conn) Read(p []byte) (int, error) {
 
 func (c *Conn) Write(p []byte) (int, error) {
 	h := c.e.out
+	if c.e.expired(true) {
+		return 0, os.ErrDeadlineExceeded
+	}
 	h.mu.Lock()
 	defer h.mu.Unlock()
 	if h.closed {
@@ -93,8 +113,42 @@ type addr string
 func (a addr) Network() string { return "vnet" }
 func (a addr) String() string  { return string(a) }
 
-func (c *Conn) LocalAddr() net.Addr                { return addr("vnet-" + c.e.name) }
-func (c *Conn) RemoteAddr() net.Addr               { return addr("vnet-peer-of-" + c.e.name) }
-func (c *Conn) SetDeadline(t time.Time) error      { return nil }
-func (c *Conn) SetReadDeadline(t time.Time) error  { return nil }
-func (c *Conn) SetWriteDeadline(t time.Time) error { return nil }
+func (c *Conn) LocalAddr() net.Addr  { return addr("vnet-" + c.e.name) }
+func (c *Conn) RemoteAddr() net.Addr { return addr("vnet-peer-of-" + c.e.name) }
+func (c *Conn) SetDeadline(t time.Time) error {
+	c.e.dmu.Lock()
+	c.e.readDL, c.e.writeDL = t, t
+	c.e.dmu.Unlock()
+	return nil
+}
+
+func (c *Conn) SetReadDeadline(t time.Time) error {
+	c.e.dmu.Lock()
+	c.e.readDL = t
+	c.e.dmu.Unlock()
+	return nil
+}
+
+func (c *Conn) SetWriteDeadline(t time.Time) error {
+	c.e.dmu.Lock()
+	c.e.writeDL = t
+	c.e.dmu.Unlock()
+	return nil
+}
+
+// LetDeadlinesPass: see the controlled variant.
+func (c *Conn) LetDeadlinesPass() {
+	c.e.dmu.Lock()
+	for _, d := range []time.Time{c.e.readDL, c.e.writeDL} {
+		if d.After(c.e.passed) {
+			c.e.passed = d
+		}
+	}
+	c.e.dmu.Unlock()
+}
+
+func (c *Conn) ArmedDeadlines() (read, write bool) {
+	c.e.dmu.Lock()
+	defer c.e.dmu.Unlock()
+	return !c.e.readDL.IsZero(), !c.e.writeDL.IsZero()
+}
